@@ -239,13 +239,16 @@ def execute(history, parent_key):
         # taken: names that only the FIRST parent uses are free, whatever was added to the first parent afterwards.
         w, exported = shared[0]
         p2 = MemoryMap(addr_width=10, data_width=8)
+        usable = True
         try:
             p2.add_window(w)
+        except (ValueError, TypeError):
+            usable = False          # a library may refuse to give one map two parents: then there is nothing to compare
         except Exception as e:
-            err = dict(msg=f"a second, empty parent refuses the anonymous window the first parent accepted: {type(e).__name__}: {str(e)[:100]}",
-                       signature=dict(kind="oracle", what="second_parent"))
+            err = dict(msg=f"a second, empty parent offered the anonymous window the first parent accepted: {type(e).__name__}: {str(e)[:100]}",
+                       signature=dict(kind="oracle", what="internal_error"))
         taken2 = set(exported)
-        for n in sorted(visible, key=repr):
+        for n in (sorted(visible, key=repr) if usable else ()):
             if err is not None:
                 break
             legal = not conflicts(n, taken2)
